@@ -224,6 +224,19 @@ Definition path_step (st : fsnode * list Z) (l : list Z) : (fsnode * list Z) * l
                     | Some (inl e) => [perr_z e]
                     | None => [PRE] end)
   | 52 :: p => (st, match list_children fs p with inr names => Zlen names :: names | inl e => [perr_z e] end)
+  (* the same three queries on the path spelled with a trailing separator: for a regular file such a path does not
+     exist (ENOTDIR), for a directory or a missing entry nothing changes *)
+  | 60 :: p => (st, if p_is_file fs p then [0; 0; 0] else [b2z (p_exists fs p); b2z (p_is_file fs p); b2z (p_is_dir fs p)])
+  | 61 :: p => (st, if p_is_file fs p then [perr_z NotFound] else
+                    match p_size 64 fs p with
+                    | Some (inr sz) => [sz]
+                    | Some (inl e) => [perr_z e]
+                    | None => [PRE] end)
+  | 62 :: p => (st, if p_is_file fs p then [perr_z NotFound] else
+                    match list_children fs p with inr names => Zlen names :: names | inl e => [perr_z e] end)
+  (* one DirectoryVisitor object used twice: set / visit / restore, the caller moves elsewhere, set / visit again, destroyed:
+     each round restores the directory it found (the harness moves back afterwards: the working directory is unchanged) *)
+  | 55 :: n :: rest => if (0 <=? n) && (n <=? Zlen rest) then (st, [1; 1]) else (st, [PRE])
   | 53 :: p => let '(during, after) := visit_and_restore fs cwd p in
                ((fs, after), [if list_eq_dec Z.eq_dec during cwd then 1 else 0; if list_eq_dec Z.eq_dec after cwd then 1 else 0])
   | 54 :: n :: rest =>
